@@ -79,6 +79,19 @@ CLAIMED = {
         note="Trusted: Coq kernel; std::path/str models; environment as a finite map; extraction, driver, harness, differ.",
         technique="Coq proof (loop invariant over canonical component lists, denotation of cwd/q) + exhaustive correspondence on both backends",
         ref="§7 C05"),
+    "C18": dict(
+        text="Coq theorems for every environment: config/cache/data/state_dir return the XDG_*_HOME value when set and the XDG default "
+             "under $HOME otherwise (error when neither is available), runtime_dir falls back to /tmp, sys_config_dirs / sys_data_dirs / "
+             "path_dirs return the listed non-empty segments in order or the defaults when unset or empty, vfs.config_dir returns the "
+             "first directory in the order XDG_CONFIG_HOME then XDG_CONFIG_DIRS containing the name (None iff none does, for every "
+             "filesystem predicate), getrids returns the SUDO pair only for uid 0 with both values parsing as u32. The mirror takes its "
+             "variable names and defaults from Gen/Consts.v, regenerated from src/sys/user.rs on every run; the theorems spell the XDG "
+             "literals out themselves, so a changed literal breaks a proof. Tied by one harness process per environment configuration, on "
+             "Memfs and a Stdfs sandbox.",
+        note="Trusted: Coq kernel; tools/translators.py (regex translator, fails closed); environment as a finite map; u32::from_str "
+             "modelled as optional '+' and decimal digits; extraction, driver, harness, differ.",
+        technique="Coq proof over a model whose constants are translated from the source + per-process correspondence",
+        ref="§7 C18"),
 }
 
 NOT_APPLICABLE = {}
